@@ -18,12 +18,25 @@ package main
 
 import (
 	"context"
+	"crypto/sha256"
+	"encoding/json"
 	"fmt"
 	"math/big"
 	"os"
 	gosync "sync"
+	"time"
 
+	v1nodetypes "buf.build/gen/go/agglayer/agglayer/protocolbuffers/go/agglayer/node/types/v1"
+	v1node "buf.build/gen/go/agglayer/agglayer/protocolbuffers/go/agglayer/node/v1"
+	v1types "buf.build/gen/go/agglayer/interop/protocolbuffers/go/agglayer/interop/types/v1"
+	agglayergrpc "github.com/agglayer/aggkit/agglayer/grpc"
 	agglayertypes "github.com/agglayer/aggkit/agglayer/types"
+	aggsendertypes "github.com/agglayer/aggkit/aggsender/types"
+	cfgtypes "github.com/agglayer/aggkit/config/types"
+	aggkitgrpc "github.com/agglayer/aggkit/grpc"
+	"github.com/agglayer/aggkit/tree"
+	"google.golang.org/grpc"
+	"google.golang.org/protobuf/proto"
 	"github.com/agglayer/aggkit/aggsender/optimistic/optimistichash"
 	"github.com/agglayer/aggkit/bridgesync"
 	aggkitcommon "github.com/agglayer/aggkit/common"
@@ -159,8 +172,41 @@ func hashAll(g int) []string {
 	for i := range p {
 		p[i] = common.BytesToHash([]byte{byte(i), byte(g)})
 	}
-	out = append(out, fmt.Sprintf("%x", p[3]))
+	for _, idx := range []uint32{0, 1, uint32(5 + g), 1<<31 + uint32(g)} {
+		out = append(out, tree.CalculateRoot(leaves[0].GetHash(), p, idx).Hex())
+	}
+	md := aggsendertypes.NewCertificateMetadata(uint64(100+g), uint32(g), uint32(1000+g), uint8(g%3))
+	out = append(out, md.ToHash().Hex())
+	if back, err := aggsendertypes.NewCertificateMetadataFromHash(md.ToHash()); err == nil {
+		out = append(out, fmt.Sprint(back.FromBlock, back.Offset, back.CreatedAt))
+	}
+	if raw, err := json.Marshal(cert); err == nil {
+		out = append(out, fmt.Sprintf("%x", sha256.Sum256(raw)))
+		var again agglayertypes.Certificate
+		if json.Unmarshal(raw, &again) == nil {
+			out = append(out, again.Hash().Hex())
+		}
+	}
+	// the wire message the real gRPC client builds for this certificate
+	sub := &captureSubmission{}
+	cl := agglayergrpc.NewVerifAgglayerGRPCClient(&aggkitgrpc.ClientConfig{RequestTimeout: cfgtypes.NewDuration(time.Minute)}, nil, nil, sub)
+	if _, err := cl.SendCertificate(context.Background(), cert); err == nil && sub.last != nil {
+		if wire, err := proto.Marshal(sub.last); err == nil {
+			out = append(out, fmt.Sprintf("%x", sha256.Sum256(wire)))
+		}
+	} else {
+		out = append(out, fmt.Sprintf("send error %v", err))
+	}
 	return out
+}
+
+type captureSubmission struct{ last *v1node.SubmitCertificateRequest }
+
+func (s *captureSubmission) SubmitCertificate(_ context.Context, in *v1node.SubmitCertificateRequest,
+	_ ...grpc.CallOption) (*v1node.SubmitCertificateResponse, error) {
+	s.last = in
+	return &v1node.SubmitCertificateResponse{CertificateId: &v1nodetypes.CertificateId{
+		Value: &v1types.FixedBytes32{Value: make([]byte, 32)}}}, nil
 }
 
 func sharedHelpers(round int) (problems []string) {
@@ -168,6 +214,15 @@ func sharedHelpers(round int) (problems []string) {
 	want := make([][]string, G)
 	for g := 0; g < G; g++ { // sequentially, before anything runs concurrently
 		want[g] = hashAll(g)
+		for _, v := range want[g] {
+			if len(v) > 10 && v[:10] == "send error" {
+				problems = append(problems, "helpers: the gRPC client refused the certificate: "+v)
+				return problems
+			}
+		}
+	}
+	if os.Getenv("RACEFREE_DUMP") != "" && round == 0 {
+		fmt.Println(len(want[0]), "values per goroutine, e.g.", want[0][len(want[0])-3:])
 	}
 	var (
 		wg gosync.WaitGroup
